@@ -3,24 +3,27 @@
 // Second injected file: empties the package-level pools so that every execution starts from
 // the same global state (pooled flate readers/writers otherwise carry state from one
 // execution to the next, and the garbage collector empties sync.Pools at unpredictable
-// moments).  It keeps whatever New functions the tree defines.  It names unexported
-// variables; if a changed tree no longer has them (or gives them another type) the driver
-// rebuilds without this file.
+// moments).  The pools are drained, not replaced: a sync.Pool registers itself with the
+// runtime on first use, so creating fresh pools for every execution would grow that registry
+// by millions of entries.  The file names unexported variables; if a changed tree no longer
+// has them (or gives them another type) the driver rebuilds without this file.
 
 package websocket
 
-import "sync"
-
 func init() {
-	readerNew := flateReaderPool.New
-	var writerNew [len(flateWriterPools)]func() interface{}
-	for i := range flateWriterPools {
-		writerNew[i] = flateWriterPools[i].New
-	}
 	verifResetPools = func() {
 		for i := range flateWriterPools {
-			flateWriterPools[i] = sync.Pool{New: writerNew[i]}
+			p := &flateWriterPools[i]
+			n := p.New
+			p.New = nil
+			for p.Get() != nil {
+			}
+			p.New = n
 		}
-		flateReaderPool = sync.Pool{New: readerNew}
+		n := flateReaderPool.New
+		flateReaderPool.New = nil
+		for flateReaderPool.Get() != nil {
+		}
+		flateReaderPool.New = n
 	}
 }
